@@ -1,8 +1,8 @@
 #!/usr/bin/env python3
 """Self-test of the Java bench (java-runtime + gen_java + e3): generated Proxy -> generated MinkObject.
 
-    python3 /verif/bench/selftest_java.py [--keep] [--idlc PATH] [--probe PATH] [--only ID]
-                                          [--valuations N] [--no-findings] [--dump] [-v]
+    python3 /verif/bench/selftest_java.py [--keep] [--idlc PATH] [--probe PATH] [--only ID] [-j N]
+                                          [--valuations N] [--seed N] [--no-findings] [--dump] [-v]
 
 Part 1 (CASES): constructs for which the generated Java is correct.  Per call it checks
   * envelope: op == flattened op id; len(bi), len(boSizes), len(oi), oo == the counts the C-family
@@ -314,12 +314,13 @@ def check_run(b, r, facts, stats):
     return probs
 
 
-def run_case(cs, a, stats, dump=False):
-    """-> (stage, problems, timing) ; stage in idlc | javac generated | javac harness | run | ok"""
+def run_case(cs, a, stats, dump=False, valuations=None, seed=None):
+    """-> (stage, problems, timing, workdir); stage in idlc | javac generated | javac harness | run | ok"""
     wd = tempfile.mkdtemp(prefix=f"e3-{cs['id']}-", dir="/tmp")
     try:
         t0 = time.time()
-        b = e3.build(cs, wd, a.idlc, valuations=a.valuations, seed=a.seed)
+        b = e3.build(cs, wd, a.idlc, valuations=a.valuations if valuations is None else valuations,
+                     seed=a.seed if seed is None else seed)
         b["case"] = cs
         t1 = time.time()
         if not b["ok"]:
@@ -358,13 +359,263 @@ CASES = []
 FINDINGS = []
 
 
-def finding(fid, title, cs, stage, *symptoms):
+def finding(fid, title, cs, stage, *symptoms, rejected=None):
+    """rejected: regex of an idlc rejection message; when idlc (built from a repaired working tree)
+    refuses the construct with that message the finding is not applicable (reported as n/a)"""
     cs = dict(cs)
     cs["id"] = fid
-    FINDINGS.append({"id": fid, "title": title, "case": cs, "stage": stage, "symptoms": list(symptoms)})
+    FINDINGS.append({"id": fid, "title": title, "case": cs, "stage": stage, "symptoms": list(symptoms),
+                     "rejected": rejected})
 
 
 # CASE-DEFINITIONS-BEGIN
+
+# ---- shared declarations
+F1 = S("F1", F("uint32", "a"))
+F2 = S("F2", F("uint8", "a"), F("uint8", "b"))
+S16 = S("S16", F("uint64", "a"), F("uint32", "b"), F("uint16", "c"), F("int8", "d"), F("uint8", "e"))
+SF = S("SF", F("float32", "a"), F("float32", "b"), F("float64", "c"))
+B24 = S("B24", F("uint64", "a"), F("uint32", "b"), F("uint32", "c"), F("uint64", "d"))
+BALL = S("BALL", *[F(t, f"f{i}") for i, t in enumerate(
+    ["uint64", "int64", "float64", "uint32", "int32", "float32", "uint16", "int16", "uint8", "int8", "uint16", "uint32"])])
+NEST = S("Nest", F("F2", "f"), F("uint16", "g"), F("uint32", "h"))            # 8 bytes, small
+BNEST = S("BNest", F("B24", "f"), F("uint64", "g"))                           # 32 bytes, big
+A1 = S("A1", F("uint32", "a"), {"type": "uint32", "count": 1, "name": "b", "force_array": True})
+IO_ = I("IO", [M("nop", [])])
+
+# ---- 1. primitives of every type: in, out, in+out alone; bundles (>= 2 per direction) of every type
+_ms = []
+for _t in PR:
+    _ms += [M(f"in_{_t}", [IN(_t, "x")]), M(f"out_{_t}", [OUT(_t, "y")]), M(f"io_{_t}", [IN(_t, "x"), OUT(_t, "y")])]
+CASES.append(case("prims", [I("IPrim", [E("E_ONE"), E("E_TWO")] + _ms + [
+    M("allin", [IN(t, f"a{i}") for i, t in enumerate(PR)]),
+    M("allout", [OUT(t, f"a{i}") for i, t in enumerate(PR)]),
+    M("allio", [IN(t, f"a{i}") for i, t in enumerate(PR)] + [OUT(t, f"b{i}") for i, t in enumerate(reversed(PR))]),
+    M("mix", [IN("uint16", "a"), OUT("int8", "b"), IN("int64", "c"), OUT("int32", "d"), IN("float32", "e"),
+              OUT("float64", "f")]),
+    M("two", [IN("uint8", "a"), IN("uint8", "b"), OUT("uint16", "c"), OUT("uint16", "d")]),
+    M("nop", []),
+])]))
+
+# ---- 2. untyped buffers in/out (also next to single / bundled primitives); byte arrays as input
+CASES.append(case("buffers", [I("IBuf", [E("E_ONE"),
+    M("bin", [IN("buffer", "x")]), M("bout", [OUT("buffer", "y")]), M("bio", [IN("buffer", "x"), OUT("buffer", "y")]),
+    M("b2", [IN("buffer", "x"), IN("buffer", "x2"), OUT("buffer", "y"), OUT("buffer", "y2")]),
+    M("bp", [IN("buffer", "x"), IN("uint32", "p"), OUT("buffer", "y"), OUT("uint32", "q")]),
+    M("bpp", [IN("uint32", "p0"), IN("buffer", "x"), IN("uint32", "p"), OUT("uint8", "q0"), OUT("buffer", "y"),
+              OUT("uint32", "q")]),
+    M("u8in", [IN("uint8", "x", U)]), M("i8in", [IN("int8", "x", U)]),
+    M("u8mix", [IN("uint8", "x", U), IN("buffer", "b"), IN("uint16", "p"), OUT("buffer", "y")]),
+])]))
+
+# ---- 3. structs of scalar primitives: small (<= 16 bytes) alone and bundled, big (own buffer)
+CASES.append(case("structs", [F1, F2, S16, SF, B24, BALL, A1, I("IStruct", [E("E_ONE"),
+    M("sin", [IN("F1", "s")]), M("sout", [OUT("F1", "s")]), M("sio", [IN("F2", "s"), OUT("S16", "t")]),
+    M("sf", [IN("SF", "s"), OUT("SF", "t")]),
+    M("sb1", [IN("F1", "s"), IN("uint32", "x")]), M("sb2", [OUT("F2", "t"), OUT("uint16", "y")]),
+    M("sb3", [IN("F1", "s"), IN("S16", "s2"), IN("uint8", "x"), OUT("F2", "t"), OUT("SF", "t2"), OUT("uint64", "y")]),
+    M("bin", [IN("B24", "c")]), M("bout", [OUT("B24", "d")]), M("bio", [IN("B24", "c"), OUT("BALL", "d")]),
+    M("ball", [IN("BALL", "c")]),
+    M("b2in", [IN("B24", "c"), IN("BALL", "d")]),
+    M("bmix", [IN("B24", "c"), IN("uint32", "x"), IN("F1", "s"), IN("buffer", "b")]),
+    M("bmix2", [IN("uint32", "x"), IN("B24", "c"), IN("F1", "s"), OUT("buffer", "b"), OUT("uint32", "y"),
+                OUT("uint8", "z")]),
+    M("bmix3", [IN("B24", "c"), IN("uint8", "x"), OUT("B24", "d"), OUT("buffer", "b")]),
+    M("one", [IN("A1", "s"), OUT("A1", "t")]),                      # field declared uint32[1]
+])]))
+
+# ---- 4. nested structs work in the OUT direction only (see findings for `in`)
+CASES.append(case("nested_out", [F2, B24, NEST, BNEST, I("INest", [
+    M("nout", [OUT("Nest", "m")]), M("nbout", [OUT("Nest", "m"), OUT("uint32", "y")]),
+    M("bnout", [OUT("BNest", "m")]), M("mix", [IN("uint32", "x"), IN("buffer", "b"), OUT("BNest", "m")]),
+])]))
+
+# ---- 5. objects: generic and typed, in and out, next to data
+CASES.append(case("objects", [B24, IO_, I("IObj", [E("E_ONE"),
+    M("gin", [IN("interface", "o")]), M("gout", [OUT("interface", "o")]),
+    M("tin", [IN("IO", "o")]), M("tout", [OUT("IO", "o")]),
+    M("self", [IN("IObj", "o"), OUT("IObj", "p")]),
+    M("mix", [IN("interface", "o"), OUT("interface", "p"), IN("IO", "q"), OUT("IO", "r")]),
+    M("data", [IN("uint32", "x"), IN("IO", "o"), IN("buffer", "b"), OUT("IO", "p"), OUT("uint32", "y"),
+               OUT("buffer", "c"), IN("B24", "s"), IN("interface", "o2"), OUT("interface", "p2")]),
+    M("many", [IN("IO", f"i{k}") for k in range(5)] + [OUT("IO", f"o{k}") for k in range(4)]),
+])]))
+
+# ---- 6. object arrays: at most one per direction
+CASES.append(case("objarrays", [IO_, I("IArr", [E("E_ONE"),
+    M("ain", [IN("IO", "a", 3)]), M("aout", [OUT("IO", "a", 2)]), M("aio", [IN("IO", "a", 2), OUT("IO", "b", 3)]),
+    M("gain", [IN("interface", "a", 2)]), M("gaout", [OUT("interface", "a", 2)]),
+    M("a1", [IN("IO", "a", 1), OUT("IO", "b", 1)]),
+    M("adata", [IN("uint32", "x"), IN("IO", "a", 2), IN("buffer", "b"), OUT("IO", "c", 2), OUT("uint32", "y")]),
+])]))
+
+# ---- 7. inheritance (three levels), optional methods, errors and constants on every level, docs
+CASES.append(case("inherit", [F1,
+    I("IBase", [E("E_B1"), E("E_B2"), C("uint32", "KB", "7"), M("bm", [IN("uint32", "a"), OUT("uint32", "b")]),
+                M("bopt", [IN("uint8", "z")], optional=True)]),
+    I("IMid", [E("E_M1"), M("mm", [IN("F1", "s"), OUT("F1", "t")]),
+               M("mopt", [IN("uint32", "x"), OUT("uint32", "y")], optional=True)], base="IBase"),
+    I("ILeaf", [E("E_L1"), C("uint8", "KL", "3"),
+                M("lm", [IN("buffer", "b"), OUT("buffer", "c")], doc="  * documented\n  "),
+                M("lo", [IN("IBase", "o"), OUT("IMid", "p")])], base="IMid"),
+]))
+
+# ---- 8. includes: struct, constant, typed object and base interface from other files; include dir
+_inc_a = {"path": "a.idl", "nodes": [S("SA", F("uint32", "a"), F("uint32", "b")), C("uint32", "KA", "5"),
+                                     I("IA", [E("E_A"), M("am", [IN("SA", "s"), OUT("SA", "t")])])]}
+_inc_b = {"path": "inc/b.idl", "nodes": [S("SB", F("uint64", "a")), I("IB", [M("bm", [IN("SB", "s")])])]}
+CASES.append(case("includes", [INC("a.idl"), INC("b.idl"),
+    I("IX", [M("m", [IN("SA", "s"), IN("IA", "o"), IN("SB", "u"), OUT("uint32", "y")])]),
+    I("IY", [M("ym", [IN("uint8", "x")])], base="IA")], extra_files=[_inc_a, _inc_b], incdirs=["inc"]))
+
+# ---- 9. constants that fit their Java carrier; harmless identifier choices; empty interfaces
+CASES.append(case("misc", [
+    C("uint8", "K8", "127"), C("int8", "KI8", "-128"), C("uint16", "K16", "65535"), C("uint16", "K16h", "0x10"),
+    C("int16", "KI16", "5"), C("uint32", "K32", "0xFFFFFFFF"), C("uint32", "K32d", "2147483647"),
+    C("int32", "KI32", "-2147483648"), C("uint64", "K64", "2147483647"), C("int64", "KI64", "-5"),
+    C("float64", "KF64", "1.5"), C("float32", "KF32", "2"),
+    S("Boolean", F("uint32", "a")),
+    I("IEmpty", []), I("IErrOnly", [E("E1")]),
+    I("IMisc", [C("uint8", "k8", "1"), C("uint32", "k32", "0x7fffffff"), E("OP_m"),
+        M("m", [IN("uint32", "bundleIn"), OUT("uint32", "bundleOut")]),
+        M("n", [IN("uint32", "i"), IN("uint32", "mRefs"), IN("uint32", "minkObject"), IN("Boolean", "s_val")]),
+        M("invoke", [IN("uint32", "x")]), M("retain", [IN("uint32", "x")]), M("isNull", [IN("uint32", "x")]),
+        M("equals", [IN("uint32", "x")]), M("wait", [IN("uint32", "x")]),
+    ])]))
+
+
+# ================================================================== findings
+_UOE = r"exception in skeleton: java\.lang\.UnsupportedOperationException"
+_BOE = r"exception in skeleton: java\.nio\.BufferOverflowException"
+_NPE = r"java\.lang\.NullPointerException"
+
+# ---- A. objects inside structs: the Java backend aborts (idlc panics), even when the struct is unused
+finding("A1-objstruct-unused", "struct with an object member, not used by any method: idlc panics",
+        case("x", [S("OS", F("uint64", "a"), F("uint64", "b"), F("interface", "o")), I("IX", [M("m", [IN("uint32", "x")])])]),
+        "idlc", r"not implemented: Java codegen doesn't support objects in struct")
+finding("A2-objstruct-param", "struct with a typed object member as parameter: idlc panics",
+        case("x", [I("IO", [M("nop", [])]), S("OS", F("uint32", "p", 4), F("IO", "o")), I("IX", [M("m", [IN("OS", "x")])])]),
+        "idlc", r"not implemented: Java codegen doesn't support objects in struct")
+
+# ---- B. primitive arrays
+finding("B1-primarr-in", "in T[] for every T wider than a byte: skeleton calls array() on a view buffer",
+        case("x", [I("IX", [M(f"ain_{t}", [IN(t, "x", U)]) for t in PR if t not in ("uint8", "int8")])]),
+        "run", *[rf"IX\.ain_{t} val \d: {_UOE}: None at com\.qualcomm\.qti\.mink\.IX\$MinkObject\.invoke"
+                 for t in PR if t not in ("uint8", "int8")])
+finding("B2-primarr-out", "out T[] for every T: skeleton sizes bo[i] from the 1-element holder array",
+        case("x", [I("IX", [M(f"aout_{t}", [OUT(t, "y", U)]) for t in PR])]),
+        "run", *([rf"IX\.aout_{t} val \d: {_BOE}" for t in PR]
+                 + [r"IX\.aout_uint32 val \d: outcap \{'y': (\d+)\} != planned",
+                    r"IX\.aout_\w+ val \d: lenouts \{'y': 1\} != planned \{'y': 0\}"]))
+
+# ---- C. struct arrays
+finding("C1-structarr-in", "in S[]: skeleton allocates new S[1] (null element) and reads one element only",
+        case("x", [F2, B24, I("IX", [M("sain", [IN("B24", "s", U)]), M("ssin", [IN("F2", "s", U)])])]),
+        "run", rf"IX\.sain val \d: exception in skeleton: {_NPE}: Cannot assign field \"a\" because \"<local\d+>\[0\]\" is null",
+        rf"IX\.ssin val \d: exception in skeleton: {_NPE}")
+finding("C2-structarr-out", "out S[]: skeleton sizes bo[i] for one element; proxy fills a fresh S[n] of nulls",
+        case("x", [F2, B24, I("IX", [M("saout", [OUT("B24", "s", U)]), M("ssout", [OUT("F2", "s", U)])])]),
+        "run", rf"IX\.saout val \d: ({_BOE}|exception in proxy: {_NPE})", rf"IX\.ssout val \d: {_BOE}")
+
+# ---- D. nested structs as input
+finding("D1-nested-in", "in S where S has a struct member: skeleton does new S() and assigns s.f.a with s.f == null",
+        case("x", [F2, B24, NEST, BNEST, I("IX", [M("nin", [IN("Nest", "n")]), M("nbin", [IN("Nest", "n"), IN("uint32", "x")]),
+                                                  M("bnin", [IN("BNest", "n")])])]),
+        "run", rf"IX\.nin val \d: exception in skeleton: {_NPE}: Cannot assign field \"a\" because \"<local\d+>\.f\" is null",
+        rf"IX\.nbin val \d: exception in skeleton: {_NPE}", rf"IX\.bnin val \d: exception in skeleton: {_NPE}")
+
+# ---- E. fixed-size array members of structs (get_struct_pair ignores the count)
+finding("E1-arrfield-u8-in", "struct { uint8[4] a; } as in: skeleton assigns a byte to byte[]",
+        case("x", [S("A8", F("uint8", "a", 4)), I("IX", [M("m", [IN("A8", "s")])])]),
+        "javac generated", r"incompatible types: byte cannot be converted to byte\[\]\s+s\.a=bundleIn0\.get\(\);")
+finding("E2-arrfield-u8-out", "struct { uint8[4] a; } as out: proxy assigns a byte to byte[]",
+        case("x", [S("A8", F("uint8", "a", 4)), I("IX", [M("m", [OUT("A8", "s")])])]),
+        "javac generated", r"incompatible types: byte cannot be converted to byte\[\]\s+s_ptr\[0\]\.a = bundleOut\.get\(\);")
+finding("E3-arrfield-u32", "struct { uint32[2] a; }: putInt(int[]) / int assigned to int[]",
+        case("x", [S("A32", F("uint32", "a", 2)), I("IX", [M("m", [IN("A32", "s")]), M("n", [OUT("A32", "s")])])]),
+        "javac generated", r"incompatible types: int\[\] cannot be converted to int\s+buffer_s_val\.putInt\(s_val\.a\);",
+        r"incompatible types: int cannot be converted to int\[\]")
+finding("E4-arrfield-struct", "struct { F2[2] c; }: member access on an array",
+        case("x", [F2, S("AS", F("F2", "c", 2)), I("IX", [M("m", [IN("AS", "s")])])]),
+        "javac generated", r"cannot find symbol\s+buffer_s_val\.put\(s_val\.c\.a\);", r"location: variable c of type F2\[\]")
+finding("E5-arrfield-bundled", "struct with array member inside a bundle / in a struct array",
+        case("x", [S("A8", F("uint8", "a", 4)), I("IX", [M("m", [IN("A8", "s"), IN("uint8", "x")]), M("n", [OUT("A8", "s", U)])])]),
+        "javac generated", r"s\.a=bundleIn\.get\(\);", r"s_ptr\[0\]\[i\]\.a = buffer_s_ptr\.get\(\);")
+
+# ---- F. more than one `bundleOut` declaration in a proxy method
+finding("F1-bundleout-prim-big", "out primitive + out big struct: proxy declares bundleOut twice",
+        case("x", [B24, I("IX", [M("m", [OUT("uint32", "a"), OUT("B24", "d")])])]),
+        "javac generated", r"variable bundleOut is already defined in method m\(int\[\],B24\[\]\)")
+finding("F2-bundleout-big-big", "two out big structs: proxy declares bundleOut twice",
+        case("x", [B24, I("IX", [M("m", [OUT("B24", "c"), OUT("B24", "d")])])]),
+        "javac generated", r"variable bundleOut is already defined in method m\(B24\[\],B24\[\]\)")
+finding("F3-bundleout-bundle-big", "out bundle + out big struct: proxy declares bundleOut twice",
+        case("x", [B24, I("IX", [M("m", [OUT("uint32", "a"), OUT("uint32", "b"), OUT("B24", "d")])])]),
+        "javac generated", r"variable bundleOut is already defined in method m\(int\[\],int\[\],B24\[\]\)")
+finding("F4-bundleout-small-big", "out small struct + out big struct: proxy declares bundleOut twice",
+        case("x", [F1, B24, I("IX", [M("m", [OUT("F1", "c"), OUT("B24", "d")])])]),
+        "javac generated", r"variable bundleOut is already defined in method m\(F1\[\],B24\[\]\)")
+
+# ---- G. two object arrays of one direction (accepted by idlc): both start at index 0
+finding("G1-two-objarr-in", "in I[2] a, in I[2] b: proxy writes both at oi[0..], skeleton hands all of oi to both",
+        case("x", [IO_, I("IX", [M("m", [IN("IO", "a", 2), IN("IO", "b", 2)])])]),
+        "run", r"IX\.m val 0: oi \['t3', 't4', 'null', 'null'\] != reference \['t1', 't2', 't3', 't4'\]",
+        r"IX\.m val 0: impl ins \{'a': \['t3', 't4', 'null', 'null'\], 'b': \['t3', 't4', 'null', 'null'\]\}",
+        rejected=r"has multiple input object arrays")
+finding("G2-two-objarr-out", "out I[2] a, out I[2] b: both copied from/to oo[0..]; x_len = oo.length",
+        case("x", [IO_, I("IX", [M("m", [OUT("IO", "a", 2), OUT("IO", "b", 2)])])]),
+        "run", r"IX\.m val \d: reply oo \[.*\] != reference", r"objcap \{'a': 4, 'b': 4\} != declared \{'a': 2, 'b': 2\}",
+        rejected=r"has multiple output object arrays")
+
+# ---- H. file naming
+finding("H1-stem-eq-iface", "IDL file IStem.idl declaring interface IStem: interface nested into itself, imports inside a type",
+        case("x", [I("IStem", [M("m", [IN("uint32", "x")])])], main="IStem.idl"),
+        "javac generated", r"IStem\.java:\d+: error: illegal start of type\s+import com\.qualcomm\.qti\.qms\.api\.mink\.IMinkObject;")
+finding("H2-include-subdir", "include \"inc/b.idl\": file-level interface `extends inc/b`",
+        case("x", [INC("inc/b.idl"), I("IX", [M("m", [IN("SB", "s")])])], extra_files=[_inc_b]),
+        "javac generated", r"public interface main extends inc/b \{")
+
+# ---- I. constants that do not fit the Java carrier type
+def _cc(fid, title, c, sym, iface=False):
+    nodes = [I("IC", [c, M("m", [IN("uint32", "x")])])] if iface else [c, I("IC", [M("m", [IN("uint32", "x")])])]
+    finding(fid, title, case("x", nodes), "javac generated", sym)
+_cc("I1-const-u8", "const uint8 K = 200", C("uint8", "K", "200"), r"possible lossy conversion from int to byte\s+byte K = 200;")
+_cc("I2-const-u8-iface", "interface-level const uint8 K = 200", C("uint8", "K", "200"),
+    r"possible lossy conversion from int to byte\s+byte IC_K = 200;", iface=True)
+_cc("I3-const-i16-neg", "const int16 K = -1 (carrier char)", C("int16", "K", "-1"), r"possible lossy conversion from int to char\s+char K = -1;")
+_cc("I4-const-u32-dec", "const uint32 K = 4294967295 (decimal)", C("uint32", "K", "4294967295"), r"integer number too large\s+int K = 4294967295;")
+_cc("I5-const-u64", "const uint64 K = 0x100000000 (no L suffix)", C("uint64", "K", "0x100000000"), r"integer number too large\s+long K = 0x100000000;")
+_cc("I6-const-i64", "const int64 K = -4294967297", C("int64", "K", "-4294967297"), r"integer number too large\s+long K = -4294967297;")
+_cc("I7-const-f32", "const float32 K = 1.5 (no f suffix)", C("float32", "K", "1.5"), r"possible lossy conversion from double to float\s+float K = 1\.5;")
+
+# ---- J. identifiers
+finding("J1-param-names", "parameter named like a local of the generated skeleton (bi bo oi oo boSizes methodID mObj)",
+        case("x", [I("IX", [M("m1", [IN("uint32", "bi")]), M("m2", [OUT("uint32", "bo")]), M("m3", [IN("interface", "oi")]),
+                            M("m4", [OUT("interface", "oo")]), M("m5", [IN("uint32", "boSizes")]),
+                            M("m6", [IN("uint32", "methodID")]), M("m7", [IN("uint32", "mObj")])])]),
+        "javac generated", r"variable bi is already defined in method invoke", r"variable bo is already defined",
+        r"variable oi is already defined", r"variable oo is already defined", r"variable boSizes is already defined",
+        r"variable methodID is already defined", r"\(\(IX\)mObj\)\.m7\(mObj\);")
+finding("J2-param-bundle-names", "bundled parameter named bundleIn / bundleOut",
+        case("x", [I("IX", [M("m", [IN("uint32", "bundleIn"), IN("uint32", "y")]), M("n", [OUT("uint32", "bundleOut"), OUT("uint32", "y")])])]),
+        "javac generated", r"variable bundleIn is already defined in method invoke", r"variable bundleOut is already defined in method invoke")
+finding("J3-kw-param", "Java keyword as parameter name (final)",
+        case("x", [I("IX", [M("m", [IN("uint32", "final")])])]), "javac generated", r"int final = ByteBuffer\.wrap")
+finding("J4-kw-method", "Java keyword as method name (native)",
+        case("x", [I("IX", [M("native", [IN("uint32", "x")])])]), "javac generated", r"void native\(int x_val\)")
+finding("J5-kw-field", "Java keyword as struct member name (transient)",
+        case("x", [S("SK", F("uint32", "transient")), I("IX", [M("m", [IN("SK", "s")])])]),
+        "javac generated", r"s_val\.transient")
+finding("J6-object-methods", "parameterless method named like a java.lang.Object method (wait notify hashCode toString)",
+        case("x", [I("IX", [M("wait", []), M("notify", []), M("hashCode", []), M("toString", [])])]),
+        "javac generated", r"wait\(\) in IX cannot override wait\(\) in Object", r"notify\(\) in IX cannot override",
+        r"hashCode\(\) in IX cannot override", r"toString\(\) in IX cannot override")
+finding("J7-struct-names", "struct named Proxy / MinkObject / ByteBuffer shadows what the generated code refers to",
+        case("x", [S("Proxy", F("uint32", "a")), S("MinkObject", F("uint32", "a")), S("ByteBuffer", F("uint32", "a")),
+                   I("IX", [M("m", [IN("Proxy", "s")])]), I("IY", [M("m", [IN("MinkObject", "s")])]),
+                   I("IZ", [M("m", [IN("ByteBuffer", "s")])])]),
+        "javac generated", r"location: variable s_val of type Proxy", r"location: variable s_val of type MinkObject",
+        r"symbol:\s+method allocate\(int\)\s+location: class ByteBuffer")
 # CASE-DEFINITIONS-END
 
 
@@ -379,17 +630,31 @@ def main():
     ap.add_argument("--no-findings", action="store_true")
     ap.add_argument("--dump", action="store_true", help="print every record")
     ap.add_argument("-v", "--verbose", action="store_true")
+    ap.add_argument("-j", "--jobs", type=int, default=min(8, os.cpu_count() or 2))
     a = ap.parse_args()
+    if a.dump:
+        a.jobs = 1
+    import concurrent.futures
+    pool = concurrent.futures.ThreadPoolExecutor(max_workers=max(1, a.jobs))
+
+    def submit(cs, **kw):
+        st = Counter()
+        return pool.submit(lambda: run_case(cs, a, st, a.dump, **kw) + (st,))
+
+    sel_cases = [cs for cs in CASES if not a.only or cs["id"] == a.only]
+    sel_find = [] if a.no_findings else [fd for fd in FINDINGS if not a.only or fd["id"] == a.only]
+    fut_cases = [submit(cs) for cs in sel_cases]
+    # findings always run with the valuations their recorded symptoms were taken from
+    fut_find = [submit(fd["case"], valuations=4, seed=0) for fd in sel_find]
     stats = Counter()
     failures = 0
     total = 0
     t_all = time.time()
     print("== Part 1: constructs the generated Java handles correctly")
-    for cs in CASES:
-        if a.only and cs["id"] != a.only:
-            continue
+    for cs, fut in zip(sel_cases, fut_cases):
         total += 1
-        stage, probs, (tb, tr), wd = run_case(cs, a, stats, a.dump)
+        stage, probs, (tb, tr), wd, st = fut.result()
+        stats.update(st)
         print(f"{'ok  ' if stage == 'ok' else 'FAIL'} {cs['id']:14s} build {tb:5.2f}s run {tr:5.2f}s"
               + (f"  [{wd}]" if a.keep else ""))
         if probs:
@@ -415,15 +680,16 @@ def main():
     nfind = 0
     if not a.no_findings:
         print("\n== Part 2: recorded findings (generated Java is wrong; must still reproduce)")
-        fstats = Counter()
-        for fd in FINDINGS:
-            if a.only and fd["id"] != a.only:
-                continue
+        for fd, fut in zip(sel_find, fut_find):
             nfind += 1
-            stage, probs, (tb, tr), wd = run_case(fd["case"], a, fstats, a.dump)
+            stage, probs, (tb, tr), wd, _ = fut.result()
             text = "\n".join(probs)
             missing = [s for s in fd["symptoms"] if not re.search(s, text, re.S)]
             okf = stage == fd["stage"] and not missing
+            if not okf and stage == "idlc" and fd.get("rejected") and re.search(fd["rejected"], text):
+                print(f"n/a  {fd['id']:22s} [idlc] construct is rejected by this idlc ({fd['rejected']}): {fd['title']}")
+                nfind -= 1
+                continue
             print(f"{'conf' if okf else 'CHANGED'} {fd['id']:22s} [{stage}] {fd['title']}"
                   + (f"  [{wd}]" if a.keep else ""))
             if not okf or a.verbose:
